@@ -335,6 +335,9 @@ func (e *esdtNFTTransfer) addNFTToDestination(
 	}
 
 	if currentESDTData.TokenMetaData != nil {
+		if esdtDataToTransfer.TokenMetaData == nil {
+			return ErrWrongNFTOnDestination
+		}
 		if !bytes.Equal(currentESDTData.TokenMetaData.Hash, esdtDataToTransfer.TokenMetaData.Hash) {
 			return ErrWrongNFTOnDestination
 		}
